@@ -176,11 +176,17 @@ def run_schedule(layout, programs, prefix, deliver=False, pre=None):
         if initial is None:
             # identical for every copy of the template
             initial = _INITIAL[key] = cl.dump(n)
+        marked = False
         for i in range(n):
             for line in (pre[i] if pre else ()):
+                if line == b'#DELIVER':
+                    cl.deliver()      # a file dropped into INBOX/new
+                    marked = True
+                    continue
                 cl.cmd(i, line)
         if deliver:
             cl.deliver()
+        before = cl.dump(n) if marked else None
         sched = Sched(cl.jail, private_dirs=[cl.worlds[0].tmp_dir],
                       shared_root=cl.worlds[0].root)
         procs = [sched.add(cl.worlds[i], cl.sessions[i], programs[i])
@@ -188,6 +194,7 @@ def run_schedule(layout, programs, prefix, deliver=False, pre=None):
         ex = sched.run(prefix)
         info = {
             'initial': initial,
+            'before': before,
             'results': [p.results for p in procs],
             'fs_calls': [p.fs_calls for p in procs],
             'stuck': ex.stuck,
